@@ -114,6 +114,34 @@ def symmetric_families(rng):
     add("isolated4", nx.empty_graph(4))
     add("shrikhande", _shrikhande()); add("rook4x4", nx.cartesian_product(nx.complete_graph(4), nx.complete_graph(4)))
     add("dodecahedron", nx.dodecahedral_graph())
+    for nm, base in (("cube", nx.hypercube_graph(3)), ("prism3", nx.circular_ladder_graph(3)), ("cycle6", nx.cycle_graph(6)),
+                     ("K4", nx.complete_graph(4)), ("bicyclo222", nx.Graph([(0, 1), (1, 2), (2, 3), (0, 4), (4, 5), (5, 3), (0, 6), (6, 7), (7, 3)]))):
+        B = nx.convert_node_labels_to_integers(base)
+        mu = B.number_of_edges() - B.number_of_nodes() + 1
+        nb = B.number_of_nodes()
+        atoms = [("C", 0, 0, 0)] * nb + [("Cl", 0, 0, 0)] * mu
+        out.append((f"{nm}+{mu}Cl", mol(atoms, [(a, b, 1) for a, b in B.edges])))
+        atoms2 = [("N" if i in (0, 3) else "C", 0, 0, 0) for i in range(nb)] + [("Cl", 0, 0, 0)] * (mu - 1) + [("H", 0, 0, 0), ("Cl", 0, 0, 0)]
+        out.append((f"{nm}-aza+{mu}frag", mol(atoms2, [(a, b, 1) for a, b in B.edges] + [(nb + mu - 1, nb + mu, 1)])))
+    # fragments that partition refinement cannot tell apart although they are different molecules, next to a third species of equal size
+    decalin = [(0, 1), (1, 2), (2, 3), (3, 4), (4, 5), (5, 0), (0, 6), (6, 7), (7, 8), (8, 9), (9, 5)]
+    bicyclopentyl = [(0, 1), (1, 2), (2, 3), (3, 4), (4, 0), (0, 5), (5, 6), (6, 7), (7, 8), (8, 9), (9, 5)]
+    cyclodecane = [(i, (i + 1) % 10) for i in range(10)]
+    def multi(name, frags):
+        frs = list(frags)
+        rng.shuffle(frs)
+        atoms, bonds, off = [], [], 0
+        for e in frs:
+            k = max(max(x) for x in e) + 1
+            atoms += [("C", 0, 0, 0)] * k
+            bonds += [(a + off, b + off, 1) for a, b in e]
+            off += k
+        out.append((name, mol(atoms, bonds)))
+    multi("twins-decalin", [decalin, cyclodecane, bicyclopentyl])
+    multi("twins-decalin2", [decalin, bicyclopentyl, cyclodecane, decalin])
+    ring = lambda k: [(i, (i + 1) % k) for i in range(k)]
+    multi("twins-rings-3-4-7", [ring(3) + [(a + 3, b + 3) for a, b in ring(4)], ring(7), ring(7)])
+    multi("twins-rings-6-6-12", [ring(12), ring(6) + [(a + 6, b + 6) for a, b in ring(6)], ring(4) + [(a + 4, b + 4) for a, b in ring(8)]])
     # sandwich: two rings bound to one centre (ferrocene-like)
     fer = nx.Graph()
     fer.add_edges_from([(i, (i + 1) % 5) for i in range(5)] + [(5 + i, 5 + (i + 1) % 5) for i in range(5)] + [(i, 10) for i in range(10)])
